@@ -538,6 +538,14 @@ func doSelectRepoSet(shards []*rankedShard, and *query.And) ([]*rankedShard, que
 				return filtered, and
 			}
 
+			// query.Branch treats the pattern "HEAD" as the first branch of a
+			// repository, while BranchesRepos looks up a branch named "HEAD". The
+			// replacement only has the same meaning if HEAD is the first branch of
+			// every repository we are going to search.
+			if c.List[0].Branch == "HEAD" && !headIsFirstBranch(filtered) {
+				return filtered, and
+			}
+
 			// Every repo wants the same branches, so we can replace RepoBranches
 			// with a list of branch queries.
 			and.Children[i] = &query.Branch{Pattern: c.List[0].Branch, Exact: true}
@@ -550,6 +558,19 @@ func doSelectRepoSet(shards []*rankedShard, and *query.And) ([]*rankedShard, que
 	}
 
 	return shards, and
+}
+
+// headIsFirstBranch reports whether the first branch of every repository in
+// shards is named "HEAD".
+func headIsFirstBranch(shards []*rankedShard) bool {
+	for _, s := range shards {
+		for _, repo := range s.repos {
+			if len(repo.Branches) == 0 || repo.Branches[0].Name != "HEAD" {
+				return false
+			}
+		}
+	}
+	return true
 }
 
 func (ss *shardedSearcher) Search(ctx context.Context, q query.Q, opts *zoekt.SearchOptions) (sr *zoekt.SearchResult, err error) {
